@@ -128,7 +128,7 @@ CHECKS = {
              "NaN/inf and that Q1, Q2 vanish (<=1e-290) above the exp overflow threshold; symbolically no 0/0 or x/0 survives into any "
              "assembled component and the T=0 row carries no thermal term; for mixed shear keys the calculation completes with defined "
              "values on every path of the approximate-equality task merging (equal / nearly equal axial strain fractions); no undefined value for "
-             "temperature grids starting at 0 K, without a 0 K point (T_MIN > 0) and with the 0 K point not in first position; loading the QHA "
+             "temperature grids starting at 0 K, without a 0 K point (T_MIN > 0) and with the 0 K point not in first position, and with a q-point of weight exactly 0; loading the QHA "
              "layer completes for every DT in 0.5..500 K and DELTA_P in 0.1..5 GPa (finite-domain symbolic values through the real loader) and whichever "
              "single documented QHA setting the user leaves out (finite-domain symbolic index, real apply_default_config + loader); no undefined value "
              "either when the heat capacity handed over is exactly 0 at 0 K; an interpolation order "
